@@ -374,7 +374,7 @@ func checkC08(p *Prog, r *Report) {
 				// err == nil tested on a named result
 				if !ok && facts.Has(func(ft Fact) bool {
 					id, isID := unparen(ft.X).(*ast.Ident)
-					return ft.Op == "==" && ft.Val && p.isNilExpr(ft.Y) && isID && id.Name == "err"
+					return ft.Op == "==" && ft.Val && p.isNilExpr(ft.Y) && isID && isErrorType(p.TypeOf(id))
 				}) {
 					ok, why = true, "only after the task ran (err == nil)"
 				}
@@ -385,13 +385,15 @@ func checkC08(p *Prog, r *Report) {
 					// unconditional receive after a successful Run in the same function
 					for _, c := range p.CallsTo(f, false, "taskloop.Loop.Run") {
 						if c.Pos() < u.Pos() {
-							if id, isID := unparen(u.X).(*ast.Ident); isID && id.Name == "done" {
-								// done is closed by a defer at the top of the submitted task
+							if id, isID := unparen(u.X).(*ast.Ident); isID {
+								// the received channel is closed by a defer at the top of the submitted task
 								closedInTask := false
 								for _, l := range f.Lits {
 									walkBody(l, func(n ast.Node) bool {
-										if d, isD := n.(*ast.DeferStmt); isD && p.CalleeName(d.Call) == "builtin.close" {
-											closedInTask = true
+										if d, isD := n.(*ast.DeferStmt); isD && p.CalleeName(d.Call) == "builtin.close" && len(d.Call.Args) == 1 {
+											if cid, ok := unparen(d.Call.Args[0]).(*ast.Ident); ok && p.ObjOf(cid) == p.ObjOf(id) {
+												closedInTask = true
+											}
 										}
 										return true
 									})
@@ -615,7 +617,7 @@ func (p *Prog) classifyGoroutine(f *Func) (string, bool) {
 					if !ft.Val && p.isNilExpr(ft.Y) {
 						if c, _, ok := p.ResolveCall(f, ft.X); ok {
 							witness = "exits on error of " + p.CalleeName(c)
-						} else if id, ok := unparen(ft.X).(*ast.Ident); ok && id.Name == "err" {
+						} else if id, ok := unparen(ft.X).(*ast.Ident); ok && isErrorType(p.TypeOf(id)) {
 							witness = "exits on I/O error"
 						}
 					}
@@ -682,4 +684,8 @@ func checkNotifierGracefulWait(p *Prog, r *Report) {
 		}
 		r.Check(n == 3, "Agent.close passes graceful to the three notifiers", p.Pos(cl.Body.Pos()), "3 calls", itoa(n)+" of the three notifiers are closed with the caller's graceful flag")
 	}
+}
+
+func isErrorType(t types.Type) bool {
+	return t != nil && types.Identical(t, types.Universe.Lookup("error").Type())
 }
